@@ -691,6 +691,12 @@ def output_dir_reads(repo):
                 mode = n.args[1] if len(n.args) > 1 else next((k.value for k in n.keywords if k.arg == "mode"), None)
                 if not (isinstance(mode, ast.Constant) and mode.value == "w"):
                     bad.append({"file": fn, "line": n.lineno, "what": "open() not for plain writing: %s" % ast.unparse(n)[:70]})
+            # any other way of getting a file descriptor / object (os.open without O_TRUNC keeps the tail of an older, longer
+            # file; os.fdopen, io.open, codecs.open, pathlib ... are not the plain truncating open(path, "w"))
+            if isinstance(f, ast.Attribute) and ast.unparse(f) in ("os.open", "os.fdopen", "io.open", "codecs.open", "os.creat", "os.truncate",
+                                                                   "os.ftruncate", "shutil.copy", "shutil.copyfile", "shutil.move", "os.rename",
+                                                                   "os.replace", "os.remove", "os.unlink"):
+                bad.append({"file": fn, "line": n.lineno, "what": "file handled other than by open(path, 'w'): %s" % ast.unparse(n)[:70]})
             if isinstance(f, ast.Attribute) and f.attr in ("exists", "isfile", "isdir", "getmtime", "getsize", "stat", "listdir", "cmp",
                                                            "scandir", "walk", "read", "readlines"):
                 base = ast.unparse(f.value)
@@ -849,3 +855,83 @@ def input_path_provenance(repo):
         elif r is None:
             und.append({"line": n.lineno, "what": what})
     return bad, und
+
+
+def escaping_default_mutations(repo):
+    """E1 (mutable default arguments): a default value [] / {} / set() is ONE object for the life of the process.  If the
+    parameter is stored into an attribute (self.X = param) -- or mutated in the function itself -- and that attribute is
+    mutated in place anywhere in the package, every object built with the default shares the mutation, across libraries.
+    -> (sites, bad): all (function, parameter, attribute) sites found, and the ones reached by an in-place mutation"""
+    MUT = ("append", "extend", "insert", "update", "setdefault", "pop", "remove", "clear", "add", "sort", "reverse")
+    d = os.path.join(repo, PKG)
+    trees = dict((fn, ast.parse(open(os.path.join(d, fn)).read())) for fn in sorted(os.listdir(d)) if fn.endswith(".py"))
+    attr_muts = {}      # attribute name -> [(file, line, text)]
+    # classes whose __init__ binds the attribute to a FRESH container: an object just built from such a class is not the default
+    fresh_attr = {}
+    for fn, tree in trees.items():
+        for c in [n for n in ast.walk(tree) if isinstance(n, ast.ClassDef)]:
+            for m in c.body:
+                if isinstance(m, ast.FunctionDef) and m.name == "__init__":
+                    for n in ast.walk(m):
+                        if isinstance(n, ast.Assign) and isinstance(n.value, (ast.List, ast.Dict, ast.Set)):
+                            for t in n.targets:
+                                if isinstance(t, ast.Attribute) and isinstance(t.value, ast.Name) and t.value.id == "self":
+                                    fresh_attr.setdefault(t.attr, set()).add(c.name)
+    for fn, tree in trees.items():
+        parents = {}
+        for n in ast.walk(tree):
+            for c in ast.iter_child_nodes(n):
+                parents[id(c)] = n
+        for n in ast.walk(tree):
+            tgt = None
+            if isinstance(n, ast.Call) and isinstance(n.func, ast.Attribute) and n.func.attr in MUT and isinstance(n.func.value, ast.Attribute):
+                tgt = n.func.value.attr
+            elif isinstance(n, (ast.Assign, ast.AugAssign)):
+                for t in (n.targets if isinstance(n, ast.Assign) else [n.target]):
+                    if isinstance(t, ast.Subscript) and isinstance(t.value, ast.Attribute):
+                        tgt = t.value.attr
+                    if isinstance(n, ast.AugAssign) and isinstance(t, ast.Attribute):
+                        tgt = t.attr
+            if tgt:
+                # receiver freshly built in the same function from a class that gives the attribute its own container
+                recv = n.func.value.value if isinstance(n, ast.Call) else None
+                if isinstance(recv, ast.Name):
+                    cur = n
+                    while id(cur) in parents and not isinstance(cur, ast.FunctionDef):
+                        cur = parents[id(cur)]
+                    binds = [x.value for x in ast.walk(cur) if isinstance(x, ast.Assign) and any(
+                        isinstance(t, ast.Name) and t.id == recv.id for t in x.targets)]
+                    if binds and all(isinstance(b, ast.Call) and isinstance(b.func, ast.Name) and b.func.id in fresh_attr.get(tgt, ())
+                                     for b in binds):
+                        continue
+                attr_muts.setdefault(tgt, []).append((fn, n.lineno, ast.unparse(n)[:60]))
+    sites, bad = [], []
+    for fn, tree in trees.items():
+        for f in [n for n in ast.walk(tree) if isinstance(n, ast.FunctionDef)]:
+            args = f.args.args
+            defaults = f.args.defaults
+            for a, dv in zip(args[len(args) - len(defaults):], defaults):
+                if not isinstance(dv, (ast.List, ast.Dict, ast.Set)) and not (
+                        isinstance(dv, ast.Call) and isinstance(dv.func, ast.Name) and dv.func.id in ("list", "dict", "set")):
+                    continue
+                stored = []
+                for n in ast.walk(f):
+                    if isinstance(n, ast.Assign) and isinstance(n.value, ast.Name) and n.value.id == a.arg:
+                        for t in n.targets:
+                            if isinstance(t, ast.Attribute):
+                                stored.append(t.attr)
+                    if isinstance(n, ast.Call) and isinstance(n.func, ast.Attribute) and n.func.attr in MUT \
+                            and isinstance(n.func.value, ast.Name) and n.func.value.id == a.arg:
+                        bad.append({"file": fn, "line": n.lineno, "what": "%s: the default object of parameter %r is mutated in place: %s" % (
+                            f.name, a.arg, ast.unparse(n)[:50])})
+                    if isinstance(n, (ast.Assign, ast.AugAssign)):
+                        for t in (n.targets if isinstance(n, ast.Assign) else [n.target]):
+                            if isinstance(t, ast.Subscript) and isinstance(t.value, ast.Name) and t.value.id == a.arg:
+                                bad.append({"file": fn, "line": n.lineno, "what": "%s: the default object of parameter %r is written: %s" % (
+                                    f.name, a.arg, ast.unparse(n)[:50])})
+                for attr in stored:
+                    sites.append({"file": fn, "function": f.name, "param": a.arg, "attr": attr})
+                    for (mf, ml, mt) in attr_muts.get(attr, []):
+                        bad.append({"file": mf, "line": ml, "what": "%s.%s(%s=<mutable default>) is kept as .%s, which is mutated in place here: %s" % (
+                            fn[:-3], f.name, a.arg, attr, mt)})
+    return sites, bad
